@@ -79,7 +79,7 @@ class Kernel:
         self.choices = []          # recorded (kind, n, picked)
         self.trace = []            # (thread name, why) per step - for diagnostics
         self.line_codes = {}       # code object -> set of co_names traced at line level
-        self.anchors = {}          # (co_name, lineno) -> label
+        self.anchors = {}          # code object -> {lineno: label}
         self.keep_trace = False
 
     # -- threads
@@ -135,7 +135,28 @@ class Kernel:
             t.timeout_wait = False
         return bool(cond())
 
+    def trace_anchor(self, function, needle, label):
+        """Statement anchor for guided replay: yield ('label', label) whenever `function` is about to execute the
+        first source line containing `needle`.  Returns False if the statement no longer exists."""
+        import inspect
+        src, start = inspect.getsourcelines(function)
+        for i, line in enumerate(src):
+            if needle in line:
+                self.anchors.setdefault(function.__code__, {})[start + i] = label
+                self.line_codes.setdefault(function.__code__, False)
+                return True
+        return False
+
     def _tracer(self, frame, event, arg):
+        if frame.f_code in self.anchors and not self.line_codes.get(frame.f_code):
+            k = self
+            marks = self.anchors[frame.f_code]
+
+            def local_a(frame, event, arg):
+                if event == 'line' and frame.f_lineno in marks:
+                    k.yield_(('label', marks[frame.f_lineno]))
+                return local_a
+            return local_a
         if frame.f_code in self.line_codes:
             k = self
 
@@ -528,6 +549,17 @@ class Net:
         me = self.k.me()
         return me.node if me else 'main'
 
+    def spawn_process(self, node, target, args=(), kwargs=None):
+        """A process: when its main function returns (or dies) the process exits - its daemon threads stop and its
+        connections close, exactly as for a real interpreter."""
+        def main():
+            try:
+                target(*args, **(kwargs or {}))
+            finally:
+                if node not in self.dead:
+                    self.crash(node)
+        return self.k.spawn(node + '.main', main, node=node)
+
 
 def _reset_process_state():
     """Per-run reset of process-global state the runtime classes touch."""
@@ -597,7 +629,7 @@ def install():
             else:
                 self.node = 'proc%d' % next(net.seq)
             self.pid = self.node
-            self.st = net.k.spawn(self.node + '.main', self.target, self.args, self.kwargs, node=self.node)
+            self.st = net.spawn_process(self.node, self.target, self.args, self.kwargs)
 
         def join(self, timeout=None):
             k = CUR.k
